@@ -65,7 +65,7 @@ func (g *GenSpec) String() string {
 	}
 	s := g.K
 	switch g.K {
-	case "intrange", "slicen":
+	case "intrange", "slicen", "distinctn", "mapofn":
 		s += fmt.Sprintf("(%d,%d)", g.A, g.B)
 	case "smallrange", "stringn", "matching", "distinct", "perm", "sampled", "mapof", "oneof":
 		s += fmt.Sprintf("(%d)", g.A)
@@ -431,12 +431,20 @@ func (g *progGen) genSpec(depth int) *GenSpec {
 		a := t.Int("gen.minlen", 0, 4)
 		return &GenSpec{K: "slicen", A: a, B: a + t.Int("gen.lenspan", 0, 6), Sub: g.intSpec(depth + 1)}
 	case 5:
+		if t.Chance("gen.distinctn", 35) {
+			a := t.Int("gen.dom", 0, 5)
+			return &GenSpec{K: "distinctn", A: a, B: t.Int("gen.dmin", 0, a+1)}
+		}
 		return &GenSpec{K: "distinct", A: t.Int("gen.dom", 0, 6)}
 	case 6:
 		return &GenSpec{K: "perm", A: t.Int("gen.perm", 0, 6)}
 	case 7:
 		if t.Chance("gen.mapbool", 50) {
 			return &GenSpec{K: "mapbool", Sub: g.intSpec(depth + 1)}
+		}
+		if t.Chance("gen.mapofn", 30) {
+			a := t.Int("gen.mapdom", 1, 5)
+			return &GenSpec{K: "mapofn", A: a, B: t.Int("gen.mmin", 0, a+1), Sub: g.intSpec(depth + 1)}
 		}
 		return &GenSpec{K: "mapof", A: t.Int("gen.mapdom", 1, 8), Sub: g.intSpec(depth + 1)}
 	case 8:
